@@ -231,10 +231,18 @@ func ReadFixedString(buf *bytes.Buffer, fixedLen int) (string, error) {
 func ReadFixedStringTrimPadding(buf *bytes.Buffer, fixedLen int, padChar rune, padLeft bool) (string, error) {
 	strBytes := make([]byte, fixedLen)
 	_, err := io.ReadFull(buf, strBytes)
+	// Strip the pad byte that Padding writes (byte(padChar)), not the rune's UTF-8 encoding.
+	pad := byte(padChar)
 	if padLeft {
-		return string(bytes.TrimLeft(strBytes, string(padChar))), err
+		for len(strBytes) > 0 && strBytes[0] == pad {
+			strBytes = strBytes[1:]
+		}
+		return string(strBytes), err
 	}
-	return string(bytes.TrimRight(strBytes, string(padChar))), err
+	for len(strBytes) > 0 && strBytes[len(strBytes)-1] == pad {
+		strBytes = strBytes[:len(strBytes)-1]
+	}
+	return string(strBytes), err
 }
 
 func ReadFixedStringList[T constraints.Unsigned](buf *bytes.Buffer, fixedLen int) ([]string, error) {
